@@ -12,6 +12,7 @@ The expectation comes from mc/model/ref_urls.py (urljoin + CSS cascade rules).
 """
 import itertools
 import os
+import posixpath
 import re
 import shutil
 import urllib.parse
@@ -47,7 +48,7 @@ ASSUMPTIONS = [
     'comments (the "START @import" markers) are presentation and ignored; an @media block without rules is the same as no rule',
     'sheets of the virtual file system are delivered as str with no HTTP encoding',
     'not generated (outside the bounds): references without a path (url(#f), url(?q)), paths ending in "/", URLs with characters that need quoting in part 2, '
-    'two @import rules for the same location, import cycles, default @namespace declarations, named @import rules, csscombine(resolveVariables/sourceencoding)',
+    'import cycles, default @namespace declarations, named @import rules, csscombine(resolveVariables/sourceencoding)',
     'family B covers interactions of at most k decision sites (k per shape in bounds); family A covers every combination along one import chain',
     'the same fetch expectations are applied to the phase "parsing" (until resolveImports is entered, marked by a harness-side wrapper around cssutils.resolveImports) and "flattening"',
 ]
@@ -940,8 +941,18 @@ def judge_fetch(res, case, vfs, info, top, obs, mode):
     res.outcomes.add(h64(['fetch', kind, len(avail), len(missing), len(all_log)]))
 
 
-def run_flatten_case(res, tree, mode, family):
+def _rel_href(src, dst):
+    """href that leads from the sheet at src to the sheet at dst (relative where both are on one host)"""
+    a, b = urllib.parse.urlsplit(src), urllib.parse.urlsplit(dst)
+    if (a.scheme, a.netloc) != (b.scheme, b.netloc):
+        return dst
+    return posixpath.relpath(b.path, posixpath.dirname(a.path))
+
+
+def run_flatten_case(res, tree, mode, family, extra=None):
     case = {'kind': 'flatten', 'tree': tree, 'mode': mode}
+    if extra:
+        case['extra'] = extra
     top, tmp = TOP, None
     if mode[0] == 'combine-path':
         root = f'/tmp/c19-vfs-{os.getpid()}'
@@ -949,6 +960,9 @@ def run_flatten_case(res, tree, mode, family):
         top = cssutils.helper.path2url(path)
         tmp = {'root': root, 'path': path}
     vfs, info = build_vfs(tree, top)
+    for x, y, media in extra or ():
+        # one more @import in sheet x, of a sheet that is imported elsewhere already (family D)
+        vfs[info[x]['url']]['imports'].append([_rel_href(info[x]['url'], info[y]['url']), 's', media])
     texts = {u: ref.render_sheet(s) for u, s in vfs.items()}
     res.evaluations += 1
     edges = _tree_edges(tree)
@@ -963,7 +977,8 @@ def run_flatten_case(res, tree, mode, family):
     if obs is None:
         return
     judge_flat(res, case, vfs, info, top, obs, mode)
-    judge_fetch(res, case, vfs, info, top, obs, mode)
+    if not extra:
+        judge_fetch(res, case, vfs, info, top, obs, mode)  # ("once" per target or per @import is open for a target imported twice)
     res.outcomes.add(h64(['flat', mode[0], _mask(obs['proj'])]))
 
 
@@ -1071,6 +1086,25 @@ def deviations(shape, k, first=None, vi=None):
                 yield t
 
 
+def shared_family():
+    """family D: import graphs in which one sheet is reached twice - (tree, extra edges [importing node, imported node, media])"""
+    pres = [l for l in LOCS]
+    for loc in pres:
+        for m in MEDIA:
+            e = [loc, '', 'present']
+            d = list(EDGE_DEFAULT)
+            # t -> a -> (b, c), b -> c
+            yield [CONTENT_DEFAULT, [[e, [CONTENT_DEFAULT, [[d, _leaf()], [list(d), _leaf()]]]]]], [['aa', 'ab', m]]
+            # t -> a -> b, and a imports b a second time
+            yield [CONTENT_DEFAULT, [[e, [CONTENT_DEFAULT, [[[d[0], 'print', 'present'], _leaf()]]]]]], [['a', 'aa', m]]
+            # t -> (a, b), a -> c, b -> c
+            yield [CONTENT_DEFAULT, [[e, [CONTENT_DEFAULT, [[d, _leaf()]]]], [list(d), _leaf()]]], [['b', 'aa', m]]
+            # t -> a, t -> a again
+            yield [CONTENT_DEFAULT, [[e, _leaf()]]], [['t', 'a', m]]
+            # t -> a -> b -> c, a -> c
+            yield [CONTENT_DEFAULT, [[e, [CONTENT_DEFAULT, [[d, [CONTENT_DEFAULT, [[list(d), _leaf()]]]]]]]]], [['a', 'aaa', m]]
+
+
 def path_family():
     """family P: depth-1 trees below a real file, every edge x leaf content"""
     for e in EDGES:
@@ -1142,6 +1176,7 @@ def plan(tier):
             for vi in range(len(EDGES) - 1 if site[0] == 'e' else len(CONTENTS) - 1):
                 shards.append(['dev', si, f, vi])
     shards.append(['path'])
+    shards.append(['shared'])
     return shards
 
 
@@ -1184,6 +1219,11 @@ def run_shard(shard, tier, seed):
     elif kind == 'path':
         for tree in path_family():
             run_flatten_case(res, tree, MODE_PATH, 'P')
+    elif kind == 'shared':
+        for tree, extra in shared_family():
+            for mode in MODES_B:
+                run_flatten_case(res, tree, mode, 'D', extra)
+        res.sample({'kind': 'flatten', 'tree': tree, 'mode': MODES_B[0], 'extra': extra})
     guard.pristine()
     return res
 
@@ -1194,7 +1234,7 @@ def replay(case, tier, seed):
     if case['kind'] == 'urls':
         run_urls_case(res, case)
     else:
-        run_flatten_case(res, case['tree'], case['mode'], 'replay')
+        run_flatten_case(res, case['tree'], case['mode'], 'replay', case.get('extra'))
     guard.pristine()
     return res
 
